@@ -90,7 +90,8 @@ def load_seeded():
         meta = json.load(open(os.path.join(d, "meta.json")))
         props = meta.get("checked_by") or [meta["property"]]
         MUTANTS.append(dict(id="seeded:" + os.path.basename(d), props=props, patch=p,
-                            expect=meta.get("expect_rule", [""]), tier=meta.get("tier", "quick")))
+                            expect=meta.get("expect_rule", [""]), tier=meta.get("tier", "quick"),
+                            expected_outcome="MISSED" if str(meta.get("expected_outcome", "")).startswith("MISSED") else None))
 
 # ---- C02 -------------------------------------------------------------------------------------------
 M("C02.and_get_right_first", "C02", "core/src/props.rs",
@@ -780,8 +781,8 @@ M("C20.try_init_wrong_component", ["C20"], "src/setup.rs",
 M("C20.init_slot_ignores_failure", ["C20"], "src/setup.rs", None, None, "x") if False else None
 
 # ---- C19 -------------------------------------------------------------------------------------------
-M("C19.debug_captured_as_display", ["C19"], "src/macro_hooks.rs",
-  "        Some(Value::capture_debug(self))", "        Some(Value::capture_display(self))", "C19.R1.impl")
+M("C19.inspecting_debug_captured_anonymously", ["C19"], "src/macro_hooks.rs",
+  "        Some(Value::capture_debug(self))", "        Some(Value::from_debug(self))", "C19.R1.impl")
 # (C19.anon_sval_keeps_type removed: does not compile - capture_sval needs T: 'static)
 M("C19.hook_wrong_trait", ["C19"], "src/macro_hooks.rs",
   "        CaptureAsAnonDebug::capture(self)\n    }", "        CaptureAsDebug::capture(self)\n    }", "C19.R1.hook") if False else None
